@@ -91,6 +91,7 @@ type job struct {
 	backend string
 	depth   int
 	shard   int
+	scaled  bool // memory: order-list compaction thresholds lowered (qcheck.Spec.ScaleCompaction)
 }
 
 const shards = 6
@@ -100,13 +101,14 @@ func TestCheck(t *testing.T) {
 	r := runner.Start("C05", "model_checking")
 	var jobs []job
 	for s := 0; s < shards; s++ {
-		jobs = append(jobs, job{"memory", runner.Pick(r, 6, 7), s}, job{"sqlite", runner.Pick(r, 4, 6), s})
+		// memory: with the order-list compaction thresholds lowered, so that compactions happen inside the histories
+		jobs = append(jobs, job{"memory", runner.Pick(r, 6, 7), s, true}, job{"sqlite", runner.Pick(r, 4, 6), s, false})
 	}
 	budget := runner.Pick(r, 60*time.Second, 10*time.Minute)
 	if ji, ok := runner.Job(); ok {
 		j := jobs[ji]
 		spec := qcheck.Spec{Name: "c05", Backend: j.backend, Cfg: qmodel.Config{}, Alpha: alpha(), Depth: j.depth, Workers: 3,
-			RootShard: j.shard, RootShards: shards,
+			RootShard: j.shard, RootShards: shards, ScaleCompaction: j.scaled,
 			MaxTrans: runner.Pick(r, int64(3_000_000), int64(40_000_000)), Deadline: time.Now().Add(budget), Extra: readiness}
 		res := qcheck.Run(spec)
 		qcheck.Report(r, spec, res)
